@@ -1,7 +1,7 @@
 (* Dispatch.v -- single entry point of the executable model: opcode * argument -> result.
    Used identically by the extracted OCaml driver and by in-Coq vm_compute samples. *)
 From Coq Require Import List ZArith.
-From Yv Require Import Base.Sx Run.RunSym Run.RunGeom Run.RunCache Run.RunTrunc Run.RunStruct Run.RunBlock Run.RunFermi Run.RunFusion Run.RunSerial Run.RunLinalg Run.RunMps Run.RunCanon Run.RunKrylov Run.RunSweep.
+From Yv Require Import Base.Sx Run.RunSym Run.RunGeom Run.RunCache Run.RunTrunc Run.RunStruct Run.RunBlock Run.RunFermi Run.RunFusion Run.RunSerial Run.RunLinalg Run.RunMps Run.RunCanon Run.RunKrylov Run.RunSweep Run.RunStep.
 Import ListNotations.
 Open Scope Z_scope.
 
@@ -37,6 +37,9 @@ Definition run (op : Z) (arg : sx) : sx :=
   | 124 => run_krylov_dims arg
   | 130 => run_sweep_trace arg
   | 131 => run_prog_ops arg
+  | 140 => run_tdvp_steps arg
+  | 141 => run_tdvp_order arg
+  | 142 => run_tdvp_half arg
   | _ => sErr 999
   end.
 
